@@ -20,6 +20,11 @@ HEAP_MAX = 8
 DEFAULT_BUDGET = 60_000_000  # PY_START events per library call (hang verdict)
 
 
+# The library compares with absolute tolerances (1e-9 on points, 1e-6 on areas, 1e-9 in the
+# knot removal behind clean()): beyond coordinates of this size float rounding alone exceeds
+# them (known finding KF3).  Rebuilt-twin, re-ask and inverse-pair comparisons are evaluated
+# below it; deep-copy twins, the frame invariant and the affine model apply at every size.
+LARGE = 500.0
 T2_FLOAT_BINARY = os.environ.get("VERIF_T2_FLOAT", "1") == "1"
 T2_CURVED_BINARY = os.environ.get("VERIF_T2_CURVED", "0") == "1"
 CALL_WALL = 150  # seconds: wall-clock backstop per library call (harness error, never a verdict)
@@ -435,7 +440,7 @@ class World:
         if "same_answer_as" in step and step["same_answer_as"] in self.answers:
             prev = self.answers[step["same_answer_as"]]
             big = max([0.0] + [abs(float(c)) for o in objs for c in kernel.coords_of(o.V)])
-            if big > 1e4 and not step.get("force_expect"):
+            if big > LARGE and not step.get("force_expect"):
                 # the library compares with absolute tolerances (1e-9 on points, 1e-6 on areas):
                 # beyond this size float rounding alone exceeds them (KF3)
                 self.stats.inc("probe:inverse_pair_skipped_large_coordinates")
@@ -643,10 +648,16 @@ class World:
                 if not tol.curved or T2_CURVED_BINARY:
                     binary_t2 = True
             self.stats.inc(f"position:{pos}")
-        return {"tol": tol, "exact": exact, "good_position": good, "binary_t2": binary_t2}
+        extent = max([0.0] + [abs(float(c)) for v in vals for c in kernel.coords_of(v)])
+        if extent > LARGE and not exact:
+            binary_t2 = False
+        return {"tol": tol, "exact": exact, "good_position": good, "binary_t2": binary_t2, "extent": extent}
 
     def _t2_applicable(self, step, regime, binary):
         op = step["op"]
+        if regime.get("extent", 0.0) > LARGE and not regime["exact"] and not step.get("force_t2"):
+            self.stats.inc("probe:t2_skipped_large_coordinates")
+            return False
         if op in ("str", "repr", "points", "jinter", "jand"):
             return False  # depend on the representation by design: T1 only
         if binary:
